@@ -31,6 +31,13 @@ purpose is in design.d/C19.md, every construct is run through Python and Lean by
                `s.startswith(p)`, `s.lower()`, `s.split()`, `s.split("c")`, `s.replace("c", "")`, `a + b` on strings, `and`, `or`, `not`, `a if c else b`,
                `a or b` on lists, truthiness of lists and sets, `[e for x in l if c]`, `any(…)` / `all(…)` over a
                generator, `{*l}` with `-`, `&`, `|` of which only emptiness (`len(S) > 0`, truthiness) is observable
+  added for harness/pygen_pxindex.py (C16, C17; selftest: harness/pygen_pxindex_selftest.py): call templates through a
+               chain of method calls (`d.get(_1, {}).get(_2, _3)`, `{}` stays in the key); `x = set()`, `|=` on sets;
+               a nested accumulating `for`; locals that are None until they get a value (`local_types {x: ("opt", T)}`:
+               `x = None`, `x is None`, the value branch of `if x is None: … else: …` in an accumulating loop and of
+               `a if x is not None else b` reads the payload, any other read is refused); `list(l)`, `set(l)`,
+               `S.intersection(l)`, sets / membership of an opaque element type (membership only); a statement pinned to
+               the empty action among the leading bindings of a loop body
   atoms        expressions the caller gives a meaning to (`spec.atoms`: normalised Python source -> Lean term, type),
                e.g.  `self.params.get('nets_spawner')` -> `nets_spawner : Option String`,
                `'swarm' in self.params['pool_scope']` -> `swarm_in_scope : Bool`, `worker` -> `worker : Bool` (truthiness);
